@@ -75,7 +75,6 @@ Fixpoint evalS (n : nat) (ft : ftab) (en : env) (o : list value) (e : sexp) : re
       match e with
       | SInt z => (Val (VInt z), o)
       | SSym x => (sym_value en x, o)
-      | SGlob x => (glob_value en x, o)
       | SList _ (SSym f :: args) =>
           match builtin_of f with
           | Some BProgn => eval_seqS (evalS n' ft) en o args VNil     (* the forms in order; the value(s) of the last *)
@@ -112,9 +111,7 @@ Fixpoint run_formsS (n : nat) (ft : ftab) (gv : env) (o : list value) (fs : list
   | TQuote nm :: r => run_formsS n ft gv o r (VSym nm)
   | TForm e :: r =>
       match parse_defun e with
-      (* the variable table is kept identical to the implementation's: entries without a value, which a
-         definition may create, are invisible to symbol evaluation and to defvar *)
-      | Some (nm, ps, body) => run_formsS n ((nm, (ps, body)) :: ft) (snd (globalize_body gv ps body)) o r (VSym nm)
+      | Some (nm, ps, body) => run_formsS n ((nm, (ps, body)) :: ft) gv o r (VSym nm)
       | None =>
           match parse_gdef e with
           | Some (always, nm, z) => run_formsS n ft (gdef gv always nm z) o r (VSym nm)
@@ -129,7 +126,7 @@ Fixpoint compile_defsS (ft : ftab) (gv : env) (fs : list tform) : ftab * env * l
   | TForm e :: r =>
       match parse_defun e with
       | Some (nm, ps, body) =>
-          let '(ft', gv', r') := compile_defsS ((nm, (ps, body)) :: ft) (snd (globalize_body gv ps body)) r in (ft', gv', TQuote nm :: r')
+          let '(ft', gv', r') := compile_defsS ((nm, (ps, body)) :: ft) gv r in (ft', gv', TQuote nm :: r')
       | None =>
           match parse_gdef e with
           | Some (always, nm, z) => let '(ft', gv', r') := compile_defsS ft (gdef gv always nm z) r in (ft', gv', TQuote nm :: r')
@@ -160,93 +157,140 @@ Fixpoint runS (n : nat) (s : sstate) (ops : list op) : list obs :=
   | o :: r => let (s', ob) := stepS n s o in (match ob with Some x => [x] | None => [] end) ++ runS n s' r
   end.
 
-(* ---- guard -------------------------------------------------------------------------------------
-   (G1) a definition of `name` is inside the guard when the name is new, or the Lambda captured by the
-        name's creator is still the registered one (it is the registered one that later definitions patch),
-        or the definition is the one the name already has.  Outside: known finding C08-stale-lambda.
-   (G2) an outcome is compared with S only when S does not say undefined-function: compiled code calls the
-        placeholder, which evaluates the arguments first (known finding C08-undefined-args-first). *)
-Fixpoint sexp_eqb (x y : sexp) {struct x} : bool :=
-  match x, y with
-  | SInt z, SInt z' => Z.eqb z z'
-  | SSym s, SSym s' => String.eqb s s'
-  | SGlob s, SGlob s' => String.eqb s s'
-  | SList i xs, SList j ys =>
-      Nat.eqb i j && (fix eql (xs ys : list sexp) {struct xs} : bool :=
-                        match xs, ys with
-                        | [], [] => true
-                        | a :: xs', b :: ys' => sexp_eqb a b && eql xs' ys'
-                        | _, _ => false
-                        end) xs ys
-  | _, _ => false
-  end.
-Fixpoint sexps_eqb (xs ys : list sexp) : bool :=
-  match xs, ys with
-  | [], [] => true
-  | a :: xs', b :: ys' => sexp_eqb a b && sexps_eqb xs' ys'
-  | _, _ => false
-  end.
-Fixpoint strs_eqb (xs ys : list string) : bool :=
-  match xs, ys with
-  | [], [] => true
-  | a :: xs', b :: ys' => String.eqb a b && strs_eqb xs' ys'
-  | _, _ => false
-  end.
-Definition lam_eqb_def (l : lam) (name : string) (ps : list string) (body : list sexp) : bool :=
-  negb (l_place l) && String.eqb (l_name l) name && strs_eqb (l_params l) ps && sexps_eqb (l_forms l) body.
-Definition g_defun (st : state) (name : string) (ps : list string) (body : list sexp) : bool :=
-  match slookup name (funcs st) with
-  | None => true
-  | Some a =>
-      (match slookup name (lambdas st) with Some c => Nat.eqb a c | None => false end)
-      || (match nth_error (heap st) a with Some l => lam_eqb_def l name ps body | None => false end)
-  end.
-(* S's verdict is binding when it is a value or a condition other than undefined-function; when S runs out
+(* ---- what is left of the guard -------------------------------------------------------------------
+   (G1, removed) a redefinition used to be inside the guard only while the Lambda captured by the name's creator
+        was the registered one; since repo_fixes/C08-3 the creator always hands out the registered Lambda.
+   (G3, removed) a bare symbol as a body form had to be a parameter or an existing variable; since
+        repo_fixes/C08-4 Lambda.Compile leaves symbols alone.
+   Every program and every history of the modelled language is inside the guard: there is no guard predicate.
+   (G2, reclassified) evalS signals undefined-function before evaluating the arguments of the call; slip's compiled
+        call evaluates them first.  Both are allowed (CLHS 3.1.2.1.2.3, see evalL below), so the former finding
+        C08-undefined-args-first is not a defect.  `comparable` stays as the domain on which the one-policy
+        specification evalS is binding: there every policy gives the same outcome.  The outcomes outside it are
+        covered exactly by evalL / runL (ProofsLate.v). *)
+(* evalS's verdict is binding when it is a value or a condition other than undefined-function; when S runs out
    of fuel it says nothing *)
 Definition comparable (r : res) : bool := match r with Err EUndefined => false | OutOfFuel => false | _ => true end.
 Definition is_val (r : res) : bool := match r with Val _ => true | _ => false end.
 
-(* (G1) followed along the model run *)
-(* (G3) every bare symbol among the body forms is a parameter or names a package variable that exists when
-   the definition is evaluated (so Lambda.Compile leaves it a symbol) *)
-Definition g_body (gv : env) (ps : list string) (body : list sexp) : bool :=
-  forallb (fun f => match f with SSym x => keep_sym gv ps x | _ => true end) body.
-Fixpoint guard_forms (n : nat) (st : state) (gv : env) (fs : list tform) : bool :=
+(* ---- when is an undefined operator noticed?  CLHS 3.1.2.1.2.3 -------------------------------------------
+   "Although the order of evaluation of the argument subforms themselves is strictly left-to-right, it is not
+   specified whether the definition of the operator in a function form is looked up before the evaluation of
+   the argument subforms, after the evaluation of the argument subforms, or between the evaluation of any two
+   argument subforms."  So for a call of a function that has no definition, signalling undefined-function at
+   once (what evalS does, and slip's list form) and evaluating the arguments first (what slip's compiled call
+   does: it calls the placeholder) are both what the language allows; the former finding
+   C08-undefined-args-first is not a defect.  evalL is evalS with the lookup time as a parameter: `late f` says
+   that an undefined f is noticed after its arguments have been evaluated (their side effects happen, an error
+   in one of them is what the call signals).  evalL early = evalS; and wherever evalS is binding (`comparable`)
+   evalL gives the same for every policy (Proofs: evalL_early, evalL_policy_irrelevant). *)
+Definition policy := string -> bool.
+Definition early : policy := fun _ => false.
+Fixpoint evalL (late : policy) (n : nat) (ft : ftab) (en : env) (o : list value) (e : sexp) : res * list value :=
+  match n with
+  | O => (OutOfFuel, o)
+  | S n' =>
+      match e with
+      | SInt z => (Val (VInt z), o)
+      | SSym x => (sym_value en x, o)
+      | SList _ (SSym f :: args) =>
+          match builtin_of f with
+          | Some BProgn => eval_seqS (evalL late n' ft) en o args VNil
+          | Some BIf => eval_ifS (evalL late n' ft) en o args
+          | Some BCase => eval_caseS (evalL late n' ft) en o args
+          | Some b =>
+              match eval_argsS (evalL late n' ft) en o args with
+              | (AVals vs, o1) => apply_bi b vs o1
+              | (AStop r, o1) => (r, o1)
+              end
+          | None =>
+              match slookup f ft with
+              | None =>
+                  if late f then
+                    match eval_argsS (evalL late n' ft) en o args with
+                    | (AVals _, o1) => (Err EUndefined, o1)
+                    | (AStop r, o1) => (r, o1)
+                    end
+                  else (Err EUndefined, o)
+              | Some (ps, forms) =>
+                  match eval_argsS (evalL late n' ft) en o args with
+                  | (AVals vs, o1) =>
+                      if Nat.ltb (List.length ps) (List.length vs) then (Err ETooMany, o1)
+                      else eval_bodyS (evalL late n' ft) (bind ps vs ++ en) o1 forms VNil
+                  | (AStop r, o1) => (r, o1)
+                  end
+              end
+          end
+      | SList _ _ => (Err EBadForm, o)
+      end
+  end.
+
+(* Histories with an oracle: one policy for every top-level form that is evaluated (the lookup time may differ
+   from one evaluation to the next: it depends on what has been compiled meanwhile), taken from a list; when
+   the list is exhausted the policy is `early`.  The rest of the list is returned. *)
+Definition pol_hd (pols : list policy) : policy := match pols with p :: _ => p | [] => early end.
+Fixpoint run_formsL (n : nat) (ft : ftab) (gv : env) (o : list value) (fs : list tform) (lastv : value) (pols : list policy)
+  : res * list value * ftab * env * list policy :=
   match fs with
-  | [] => true
-  | TQuote _ :: r => guard_forms n st gv r
+  | [] => (Val lastv, o, ft, gv, pols)
+  | TQuote nm :: r => run_formsL n ft gv o r (VSym nm) pols
   | TForm e :: r =>
       match parse_defun e with
-      | Some (nm, ps, body) => g_body gv ps body && g_defun st nm ps body && guard_forms n (defunM st nm ps body) gv r
+      | Some (nm, ps, body) => run_formsL n ((nm, (ps, body)) :: ft) gv o r (VSym nm) pols
       | None =>
           match parse_gdef e with
-          | Some (always, nm, z) => guard_forms n st (gdef gv always nm z) r
-          | None => match evalM n st gv e with (Val _, st1) => guard_forms n st1 gv r | _ => true end
+          | Some (always, nm, z) => run_formsL n ft (gdef gv always nm z) o r (VSym nm) pols
+          | None => match evalL (pol_hd pols) n ft gv o e with
+                    | (Val v, o1) => run_formsL n ft gv o1 r v (tl pols)
+                    | (x, o1) => (x, o1, ft, gv, tl pols)
+                    end
           end
       end
   end.
-Fixpoint guard_defs (st : state) (gv : env) (fs : list tform) : bool :=
-  match fs with
-  | [] => true
-  | TForm e :: r =>
-      match parse_defun e with
-      | Some (nm, ps, body) => g_body gv ps body && g_defun st nm ps body && guard_defs (defunM st nm ps body) gv r
-      | None =>
-          match parse_gdef e with
-          | Some (always, nm, z) => guard_defs st (gdef gv always nm z) r
-          | None => guard_defs st gv r
-          end
-      end
-  | _ :: r => guard_defs st gv r
-  end.
-Definition guard_op (n : nat) (m : mstate) (o : op) : bool :=
+Definition stepL (n : nat) (s : sstate) (o : op) (pols : list policy) : sstate * option obs * list policy :=
   match o with
-  | OLoad _ _ => true
-  | OCompile cid => match nlookup cid (codes m) with Some fs => guard_defs (ms m) (mgv m) fs | None => true end
-  | ORun cid => match nlookup cid (codes m) with Some fs => guard_forms n (set_out (ms m) []) (mgv m) fs | None => true end
+  | ORun cid =>
+      match nlookup cid (scodes s) with
+      | None => (s, None, pols)
+      | Some fs => let '(r, o1, ft', gv', pols') := run_formsL n (sft s) (sgv s) [] fs VNil pols in
+                   (mkS ft' gv' (scodes s), Some (r, o1), pols')
+      end
+  | _ => let (s', ob) := stepS n s o in (s', ob, pols)
   end.
-Fixpoint guard_ops (n : nat) (m : mstate) (ops : list op) : bool :=
+Fixpoint runL (n : nat) (s : sstate) (ops : list op) (pols : list policy) : list obs :=
   match ops with
-  | [] => true
-  | o :: r => guard_op n m o && guard_ops n (fst (stepM n m o)) r
+  | [] => []
+  | o :: r => let '(s', ob, pols') := stepL n s o pols in (match ob with Some x => [x] | None => [] end) ++ runL n s' r pols'
   end.
+(* an outcome of S is binding unless S ran out of fuel *)
+Definition binding (r : res) : bool := match r with OutOfFuel => false | _ => true end.
+
+(* The lookup times slip uses, read off the model state: an undefined name is noticed late when it has a
+   placeholder - some call of it has been compiled (CompileList registered the placeholder in Package.funcs, and
+   from then on the list form finds it there too).  These functions only choose the oracle for runL; whatever
+   they return is a policy the language allows. *)
+Definition latef (st : state) : policy :=
+  fun f => match slookup f (funcs st) with Some _ => true | None => false end.
+(* the policies along M's run: one for every top-level form that is evaluated *)
+Fixpoint pols_forms (n : nat) (st : state) (gv : env) (fs : list tform) : list policy :=
+  match fs with
+  | [] => []
+  | TQuote _ :: r => pols_forms n st gv r
+  | TForm e :: r =>
+      match parse_defun e with
+      | Some (nm, ps, body) => pols_forms n (defunM st nm ps body) gv r
+      | None =>
+          match parse_gdef e with
+          | Some (always, nm, z) => pols_forms n st (gdef gv always nm z) r
+          | None => latef st :: match evalM n st gv e with (Val _, st1) => pols_forms n st1 gv r | _ => [] end
+          end
+      end
+  end.
+Definition pols_step (n : nat) (m : mstate) (o : op) : list policy :=
+  match o with
+  | ORun cid => match nlookup cid (codes m) with Some fs => pols_forms n (set_out (ms m) []) (mgv m) fs | None => [] end
+  | _ => []
+  end.
+Fixpoint pols_run (n : nat) (m : mstate) (ops : list op) : list policy :=
+  match ops with [] => [] | o :: r => pols_step n m o ++ pols_run n (fst (stepM n m o)) r end.
+
